@@ -9,3 +9,36 @@ Theorem C05_range_conjunction_total :
     (exists r, bvr_conj a b = Ok r /\ bvr_ok r) \/ bvr_conj a b = Panic PanicOverflow.
 Proof. exact bvr_conj_total. Qed.
 Print Assumptions C05_range_conjunction_total.
+
+From WaxModel Require Import Parse Glob.
+From WaxProofs Require Import ParseFuelFacts.
+
+(* the recursion of the parser model is bounded by explicit fuel; the fuel is adequate for every string: the parser never
+   takes its out-of-fuel exit (every successful token consumes a character; nesting costs four units per character), so
+   the model of Glob::new is a total function whose only outcomes are a glob, a parse error, a rule error or one of the
+   named panic sites *)
+Theorem C05_parser_never_out_of_fuel : forall e, parse e <> ParseFuel.
+Proof. exact parse_never_out_of_fuel. Qed.
+Print Assumptions C05_parser_never_out_of_fuel.
+
+Theorem C05_build_never_out_of_fuel : forall e, build e <> BuildFuel.
+Proof. exact build_never_out_of_fuel. Qed.
+Print Assumptions C05_build_never_out_of_fuel.
+
+From WaxModel Require Import Fold Rule.
+From WaxProofs Require Import AlgebraClosure.
+
+(* the variance algebra is closed on every token tree: none of its unreachable!() / expect sites can be reached; the depth,
+   size, text and exhaustiveness queries and the rule checker can only fail by a checked addition or multiplication
+   overflowing (bounds near usize::MAX: the known class huge_bounds) - for every tree, whatever its nesting, bounds, classes *)
+Theorem C05_queries_panic_only_by_overflow : forall has_casing t s,
+  depth_variance t = Panic s \/ size_variance t = Panic s \/ text_variance has_casing t = Panic s \/
+  is_exhaustive t = Panic s \/ check t = Panic s -> s = PanicOverflow.
+Proof. exact queries_panic_only_by_overflow. Qed.
+Print Assumptions C05_queries_panic_only_by_overflow.
+
+(* ... and a build can only panic there or in the regex compiler (counted repetition above u32::MAX or nesting above the
+   limit: the known classes huge_bounds and deep_nesting, both predicted exactly by the model) *)
+Theorem C05_build_panic_sites : forall e s, build e = BuildPanic s -> s = PanicOverflow \/ s = PanicCompile.
+Proof. exact build_panic_sites. Qed.
+Print Assumptions C05_build_panic_sites.
